@@ -4,6 +4,8 @@ CONSTANTS
   Warms <- SW4
   Free = 1
   Slices <- TAllSlices
+  Sels <- QSels
+  Items <- NoItems
   Ops <- SliceOps
 INVARIANT Shape
 INVARIANT LenIsCalls
@@ -14,4 +16,5 @@ INVARIANT IthRecord
 INVARIANT NoAlias
 PROPERTY ArgUnchanged
 PROPERTY ConcatOrder
+PROPERTY IndexShape
 INVARIANT Emit
